@@ -99,7 +99,7 @@ PENDING_REASON = "check not built yet in this round (planned: see DESIGN.md §2)
 # id -> what the white-box audit round added (DESIGN.md §8.6); appended to the level text
 AUDIT = {
  "C01": "used destinations (7 slice kinds x 11 prior states), size classes around 2^7..2^17, 32 string/name lengths x 5 positions, widening alphabet x 13 Go kinds, tag-option sets, every sequence <=3 on one Decoder/Encoder, typed maps, EOF-with-last-byte and one-byte sources; call histories re-check every retained result",
- "C02": "package-level Marshal/Unmarshal; encodings alive together (all ordered pairs/triples), used carrier destinations (all ordered pairs), size classes 0..130 and 2^k+-1, name lengths 0..300 (thorough 32767)",
+ "C02": "package-level Marshal/Unmarshal; encodings alive together (all ordered pairs/triples), used carrier destinations (all ordered pairs), size classes 0..130 and 2^k+-1, name lengths 0..300 (thorough 32767), every carrier tree from EOF-with-last-bytes and one-byte readers, StringifiedMessage (go-mc's own text of every tree) round-tripped at root/field/map/list",
  "C03": "10 more entry points (nbt.Unmarshal, direct RawMessage methods, DisallowUnknownFields), 2-call histories on 56 destinations, 53 typed destinations, 6 reader kinds, payloads crossing 256/512/4096/8192",
  "C04": "every string <=2 over 131 units and <=4 over 18 classifier characters at 4 positions, one-/two-hole byte sweeps, every sequence <=3 of 40 operations in one process, embedded positions, lengths to 70000 and nesting to 300/10002",
  "C05": "6 source kinds (incl. bytes.Buffer, bufio.Reader, (0,nil) answers, EOF with the last byte), 3 writer kinds, exact-length WriteToBytes windows",
